@@ -2,7 +2,7 @@
 from .common import combined
 from . import static_rules, cli_rules
 LEVEL = 'other'
-RULES = ('R15.a', 'R15.b', 'R15.c', 'R15.d', 'R04.c', 'R04.d')
+RULES = ('R15.a', 'R15.b', 'R15.c', 'R15.d', 'R15.f', 'R14.t', 'R04.c', 'R04.d')
 
 
 def run(prog, rec, tier):
@@ -10,9 +10,10 @@ def run(prog, rec, tier):
         static_rules.run_statics(prog, rec)
         C = cli_rules.CliRules(prog, rec)
         C.reset_state()
+        C.parser()
     finally:
         pass
-    combined(prog, rec, tier, RULES, driver=('singleton',), pipe=True,
+    combined(prog, rec, tier, RULES, driver=('singleton', 'sequence'), pipe=True,
              explanation='Inventory of every mutable object with static storage in the 16 units, one obligation each: the buffer-group singleton '
              'is released on every abstract path of every operation (also failing ones), the live-buffer counter is 0 at every operation exit '
              '(and 0 at pipeline exit, tied to INV), getopt cursor and default-output name are reset at the start of every parse, name tables '
